@@ -999,6 +999,54 @@ pub fn run_tableau_case(case: &TableauCase) -> TableauRun {
         return finish(ctx);
     }
 
+    // A2. the other uninterrupted driver (its loop, stall counter and Bland switch are a
+    // separate copy of the code): every prefix of solve_step_by_step as well
+    if case.prefixes {
+        let mut t = t0.clone();
+        let mut r = r0.clone();
+        let saved = std::mem::take(&mut ctx.trace);
+        let term = drive(
+            &mut ctx,
+            &mut t,
+            &mut r,
+            Kind::StepByStep,
+            FULL_LIMIT,
+            &[],
+            true,
+            "uninterrupted solve_step_by_step",
+        );
+        let sbs_trace = std::mem::replace(&mut ctx.trace, saved);
+        if ctx.skipped.is_none() && ctx.violations.is_empty() {
+            if let Some(lp_truth) = lp_truth {
+                match (term, lp_truth) {
+                    (Term::Finished, Verdict::Optimal(z)) => {
+                        let want = z.sub(r0.value);
+                        if r.value.neg() != want {
+                            ctx.v(
+                                "not-optimal",
+                                format!("uninterrupted solve_step_by_step finished with exact value {} but the optimum of the initial system is {}", r.value.neg(), want),
+                            );
+                        }
+                    }
+                    (Term::Finished, other) => ctx.v(
+                        "not-optimal",
+                        format!("uninterrupted solve_step_by_step finished but the initial system is {}", other.tag()),
+                    ),
+                    (Term::Unbounded, Verdict::Unbounded) => {}
+                    (Term::Unbounded, other) => ctx.v(
+                        "false-unbounded",
+                        format!("uninterrupted solve_step_by_step reported unbounded but the initial system is {}", other.tag()),
+                    ),
+                    _ => {}
+                }
+            }
+        }
+        ctx.trace.extend_from_slice(&sbs_trace);
+    }
+    if ctx.skipped.is_some() || !ctx.violations.is_empty() {
+        return finish(ctx);
+    }
+
     // B. the seeded driver schedule on a fresh copy
     if !case.ops.is_empty() {
         let mut t = t0.clone();
@@ -1088,9 +1136,63 @@ pub fn classic_cases() -> Vec<(String, TableauSource)> {
     out
 }
 
+/// Block-diagonal composition of a (cycling-prone) canonical tableau with an independent
+/// "box" block whose columns improve the objective strictly: the solver makes improving
+/// pivots first (or in between) and meets the degenerate vertex later in the trace.
+fn compose_with_improving_box(rng: &mut Rng, block: &TableauSource) -> TableauSource {
+    let TableauSource::Canonical {
+        c: c1,
+        a: a1,
+        b: b1,
+        basis: basis1,
+        value,
+    } = block
+    else {
+        return block.clone();
+    };
+    let k = rng.usize(1, 2);
+    let (m1, w1) = (a1.len(), c1.len());
+    let w2 = 2 * k;
+    let box_first = rng.chance(1, 2);
+    let (off1, off2) = if box_first { (w2, 0) } else { (0, w1) };
+    let w = w1 + w2;
+    let mut c = vec![0.0; w];
+    let mut a = vec![vec![0.0; w]; m1 + k];
+    let mut b = vec![0.0; m1 + k];
+    let mut basis = vec![0usize; m1 + k];
+    let (row1, row2) = if box_first { (k, 0) } else { (0, m1) };
+    for j in 0..w1 {
+        c[off1 + j] = c1[j];
+    }
+    for i in 0..m1 {
+        for j in 0..w1 {
+            a[row1 + i][off1 + j] = a1[i][j];
+        }
+        b[row1 + i] = b1[i];
+        basis[row1 + i] = off1 + basis1[i];
+    }
+    for i in 0..k {
+        // y_i + s_i = u_i, cost(y_i) < 0: more negative than anything in the block, or less
+        let cost = *rng.pick(&[-100.0, -200.0, -1.0, -0.25, -30.0]);
+        c[off2 + 2 * i] = cost;
+        a[row2 + i][off2 + 2 * i] = rng.range(1, 3) as f64;
+        a[row2 + i][off2 + 2 * i + 1] = 1.0;
+        b[row2 + i] = rng.range(1, 5) as f64;
+        basis[row2 + i] = off2 + 2 * i + 1;
+    }
+    TableauSource::Canonical {
+        c,
+        a,
+        b,
+        basis,
+        value: *value,
+    }
+}
+
 fn gen_canonical(rng: &mut Rng) -> TableauSource {
-    let m = rng.usize(1, 4);
-    let n = rng.usize(1, 5);
+    let deep = rng.chance(1, 2);
+    let m = if deep { rng.usize(2, 4) } else { rng.usize(1, 4) };
+    let n = if deep { rng.usize(3, 5) } else { rng.usize(1, 5) };
     let w = n + m;
     // where the identity lives: last m columns, first m columns, or interleaved
     let mut cols: Vec<usize> = (0..w).collect();
@@ -1109,7 +1211,7 @@ fn gen_canonical(rng: &mut Rng) -> TableauSource {
     for i in 0..m {
         a[i][basis[i]] = 1.0;
         for j in &nonbasic {
-            a[i][*j] = match rng.weighted(&[20, 50, 20, 10]) {
+            a[i][*j] = match rng.weighted(if deep { &[10, 70, 10, 10] } else { &[20, 50, 20, 10] }) {
                 0 => 0.0,
                 1 => rng.range(1, if small { 2 } else { 5 }) as f64,
                 2 => -(rng.range(1, if small { 2 } else { 5 }) as f64),
@@ -1134,7 +1236,7 @@ fn gen_canonical(rng: &mut Rng) -> TableauSource {
     }
     let mut c = vec![0.0; w];
     for j in &nonbasic {
-        c[*j] = match rng.weighted(&[15, 55, 30]) {
+        c[*j] = match rng.weighted(if deep { &[5, 85, 10] } else { &[15, 55, 30] }) {
             0 => 0.0,
             1 => -(rng.range(1, 6) as f64),
             _ => rng.range(1, 6) as f64,
@@ -1275,7 +1377,11 @@ pub fn gen_case(rng: &mut Rng, index: u64) -> (String, TableauCase) {
             },
         );
     }
-    let (kind, source) = match rng.weighted(&[40, 35, 25]) {
+    let (kind, source) = match rng.weighted(&[36, 30, 22, 12]) {
+        3 => {
+            let (name, block) = classics[rng.usize(0, classics.len() - 1)].clone();
+            (format!("composite:{name}"), compose_with_improving_box(rng, &block))
+        }
         0 => {
             let (fam, m) = generate::gen_model(rng, &TABLEAU_FAMILY_WEIGHTS, &TABLEAU_LIMITS);
             let mut m = m;
